@@ -1,9 +1,9 @@
 CONSTANTS
   SplitBits = 2
-  MaxNodes = 20
-  MaxT = 9
+  MaxNodes = 28
+  MaxT = 17
   NExp = 3
-  MaxLevel = 12
+  MaxLevel = 100000
 CONSTANT Timers <- TimerSet
 INIT Init
 NEXT Next
